@@ -124,8 +124,8 @@ impl SlidingLogState {
                 Ok(time_until_slot)
             }
         } else {
-            // Should not happen if limit > 0
-            Ok(Duration::ZERO)
+            // Only reachable with limit 0: no grant will ever expire and free a slot
+            Err(self.timeout_duration)
         }
     }
 
